@@ -170,6 +170,14 @@ base class promises, its named bits are exposed, … (re-evaluated by the
 kernel against the regenerated `Gen.responses` on every run). -/
 theorem table_wellFormed : ∀ c ∈ Gen.responses, WellFormed c = true := by decide +kernel
 
+/-- The data the behaviour depends on is what the standard says: category,
+`_expected` / `_error_acceptable`, the name of every bit of every bitmap
+answer in its position, the codes of the enumerated answers and the device
+type names all equal the independently transcribed `Spec.Resp.table`
+(rows for parts 205/206 are pinned, see that file). -/
+theorem table_matches_standard :
+    Gen.responses.map project = Spec.Resp.table.map unpin := by decide +kernel
+
 /-- **C06 for the current tree**: every reachable response class, on every
 one of the 513 bus outcomes, yields a `value` acceptable for its category,
 renders as text without `MissingResponse`/`ResponseError`, and (bitmap
